@@ -302,3 +302,97 @@ def trace_lines(w: World, plural: str = 'kopfexamples') -> list[str]:
                               f"fin={m.get('finalizers')} del={bool(m.get('deletionTimestamp'))} ann={sorted((m.get('annotations') or {}).keys())}"))
     items.sort()
     return [s for _, s in items]
+
+
+def oracle_convergence(w: World, ix: Index | None = None) -> list[dict[str, Any]]:
+    """C03: level-triggered convergence, judged at quiescence."""
+    from kv.refmodels import json_eq_mod_null
+    ix = ix or Index(w)
+    sv = ix.sv
+    viol: list[dict[str, Any]] = []
+    if w.quiesced is False:
+        viol.append({'mech': 'no-quiescence', 'msg': 'handling did not terminate: the operator kept sending requests until the horizon', 'witness':
+                     [r.brief() for r in w.requests[-6:]]})
+        return viol
+    if not w.quiesced:
+        return viol
+    gq = _g_of_note(w, 'quiesced')
+    alive = [i for i in w.incs.values() if not i.killed and i.t_start is not None and (i.t_end is None or i.t_end >= (w.t_quiesced or 0))]
+    if not alive:
+        return viol
+    by_kind: dict[str, list[str]] = {}
+    for hid, spec in ix.specs.items():
+        if spec['kind'] in ('create', 'update', 'delete'):
+            by_kind.setdefault(spec['kind'], []).append(hid)
+    for uid in ix.uids:
+        versions = [v for v in w.history[uid] if v['g'] <= gq]
+        if not versions:
+            continue
+        last = versions[-1]
+        final = last['body']
+        if last['type'] == 'DELETED':
+            continue
+        meta = final['metadata']
+        if meta.get('deletionTimestamp'):
+            if sv.has_finalizer(final):
+                viol.append({'mech': 'deletion-stuck', 'msg': f"{uid}: still marked for deletion and held by the framework's finalizer at quiescence", 'witness': {'metadata': meta}})
+            continue
+        ess = essence(final, own_prefixes=(sv.prefix,))
+        base = sv.diffbase(final)
+        left = sv.any_progress_keys(final)
+        if left:
+            viol.append({'mech': 'records-left', 'msg': f'{uid}: progress records {left} remain at quiescence', 'witness': None})
+        if base is None or not json_eq_mod_null(base, ess):
+            viol.append({'mech': 'last-handled-state-stale', 'msg': f'{uid}: recorded last-handled state {base!r} != final essential state {ess!r} at quiescence',
+                         'witness': {'annotations': meta.get('annotations'), 'status': final.get('status')}})
+            continue
+        # (e) the handlers of the last closed cycle completed against the final essential state
+        closes = [cw for cw in ix.closing_writes(uid) if cw.g <= gq]
+        if not closes:
+            continue
+        last_close = closes[-1]
+        prev_g = closes[-2].g if len(closes) > 1 else 0
+        before = w.body_at(uid, last_close.prev_rv)
+        window_calls = [c for c in ix.calls if c['uid'] == uid and c['kind'] in CHANGING and prev_g < c['g'] <= last_close.g and c.get('reason')]
+        reason = window_calls[-1]['reason'] if window_calls else ('create' if sv.diffbase(before) is None else 'update')
+        if reason not in ('create', 'update'):
+            continue
+        for h in by_kind.get(reason, []):
+            if not _unfiltered(ix, [h]):
+                continue
+            spec = ix.specs[h]
+            if spec.get('subs'):
+                continue
+            finals = [ix.rets[c['seq']] for c in window_calls if c['h'] == h and c['seq'] in ix.rets and ix.is_final(ix.rets[c['seq']])]
+            # finished earlier in this cycle (record still on the server before the closing write) also counts as done
+            if not finals:
+                earlier = [c for c in ix.calls if c['uid'] == uid and c['h'] == h and c['g'] <= last_close.g and c['seq'] in ix.rets and ix.is_final(ix.rets[c['seq']])]
+                if not earlier:
+                    continue   # closure without this handler is C02's business
+                fc = earlier[-1]
+            else:
+                fc = next(c for c in window_calls if c['seq'] == finals[-1]['seq'])
+            seen = {'spec': fc.get('spec')} if fc.get('spec') is not None else {}
+            m = {}
+            if fc.get('labels'):
+                m['labels'] = fc['labels']
+            ann = {k: v for k, v in (fc.get('annotations') or {}).items() if not k.startswith(sv.prefix + '/') and not k.startswith('kopf.zalando.org/')}
+            if ann:
+                m['annotations'] = ann
+            if m:
+                seen['metadata'] = m
+            if not json_eq_mod_null(_only(seen), _only(ess)):
+                # an external essential write between that handler's final outcome and the closure of the cycle?
+                # ... after that handler's last invocation had taken its view (it may still have been running)
+                view_rv = int(fc['rv']) if str(fc.get('rv') or '').isdigit() else 0
+                ext = [v for v in versions if v['rv'] > view_rv and v['g'] <= last_close.g and v['writer'] in ('actor', 'slip')
+                       and not json_eq_mod_null(_only(essence(v['body'], (sv.prefix,))), _only(seen))]
+                mech = 'mid-cycle-change-hidden-from-finished-handler' if ext else 'handled-on-stale-state'
+                viol.append({'mech': mech, 'msg': f"{uid}: {h} completed on essential state {_only(seen)!r}, the object ended as {_only(ess)!r}; the cycle was closed without "
+                             f"{h} ever seeing the final state" + (" (an essential change arrived after it had finished, before the cycle closed)" if ext else ''),
+                             'witness': {'handler_call': _brief(fc), 'closing_write': last_close.brief()}})
+    return viol
+
+
+def _only(e: dict[str, Any]) -> dict[str, Any]:
+    return {k: v for k, v in e.items() if k in ('spec', 'metadata')}
